@@ -1,6 +1,76 @@
-import CoapVerif.Model.Replay
+import CoapVerif.Lemmas.Replay
 import CoapVerif.Spec.Replay
+/-
+C15 — OSCORE never accepts a replay or reuses a nonce; forgeries leave no trace.
+
+All theorems are about M (CoapVerif/Model/Replay.lean: `recv`, `validate`, `rollback`, `protect`, `restart`), for every
+configuration (`cfg.window`, `cfg.b12` arbitrary), every recipient state where stated, and every history (a `List` of
+events, by induction — no bound).  `accepted cfg r evs` are the Partial IVs of the requests accepted in the history
+`evs` started in state `r`, `final cfg r evs` the state reached, `verdicts cfg r evs` what each request got.
+-/
 namespace Coap.C15
 open Coap.Replay
-theorem stub : (1 : Nat) = 1 := rfl
+
+/-- **A protected request is accepted by a recipient context at most once**, whatever the arrival order, window size
+and Appendix B.1.2 setting: in every history of a fresh recipient context the accepted Partial IVs are pairwise
+distinct. -/
+theorem accept_at_most_once (cfg : Cfg) (evs : List Ev) : (accepted cfg Recip.fresh evs).Nodup :=
+  (accepted_nodup_aux cfg evs Recip.fresh [] good_fresh).1
+
+/-- The same from any state that is consistent with a set `A` of already accepted PIVs: nothing of `A` is accepted
+again, and nothing is accepted twice. -/
+theorem accept_at_most_once_from (cfg : Cfg) (r : Recip) (A : List Nat) (g : Good r.view A) (evs : List Ev) :
+    (accepted cfg r evs).Nodup ∧ ∀ p ∈ accepted cfg r evs, p ∉ A :=
+  ⟨(accepted_nodup_aux cfg evs r A g).1, (accepted_nodup_aux cfg evs r A g).2.1⟩
+
+/-- Only requests that authenticate are accepted. -/
+theorem forged_never_accepted (cfg : Cfg) (r : Recip) (ev : Ev) (h : ev.authentic = false) :
+    (recv cfg r ev).2 ≠ .acc := by
+  rw [recv_snd]
+  rcases vrecv_cases cfg r.view ev with ⟨_, _, ha, _⟩ | ⟨_, h2, _⟩
+  · rw [h] at ha; cases ha
+  · exact h2
+
+/-- **Messages that fail authentication leave the replay window and sequence state exactly as before** — in every
+state (reachable or not), every configuration, any claimed Partial IV. -/
+theorem forgery_no_trace (cfg : Cfg) (r : Recip) (ev : Ev) (h : ev.authentic = false) :
+    (recv cfg r ev).1.view = r.view := by
+  rw [recv_fst_view]
+  rcases vrecv_cases cfg r.view ev with ⟨_, _, ha, _⟩ | ⟨h1, _, _⟩
+  · rw [h] at ha; cases ha
+  · exact h1
+
+/-- The verdicts of a history depend on the view of the starting state only (the roll-back scratch fields never
+matter). -/
+theorem verdicts_view (cfg : Cfg) (evs : List Ev) : ∀ r r' : Recip, r.view = r'.view →
+    verdicts cfg r evs = verdicts cfg r' evs := by
+  induction evs with
+  | nil => intro _ _ _; rfl
+  | cons ev evs ih =>
+    intro r r' h
+    simp only [verdicts]
+    have h1 : (recv cfg r ev).2 = (recv cfg r' ev).2 := by rw [recv_snd, recv_snd, h]
+    have h2 : (recv cfg r ev).1.view = (recv cfg r' ev).1.view := by rw [recv_fst_view, recv_fst_view, h]
+    rw [h1, ih _ _ h2]
+
+/-- **… so later genuine messages are still accepted**: whatever follows a forged request gets exactly the verdicts
+it would have got had the forged request never arrived. -/
+theorem forgery_invisible (cfg : Cfg) (r : Recip) (ev : Ev) (h : ev.authentic = false) (evs : List Ev) :
+    verdicts cfg (recv cfg r ev).1 evs = verdicts cfg r evs :=
+  verdicts_view cfg evs _ _ (forgery_no_trace cfg r ev h)
+
+/-- **No 64-bit shift by 64 or more** is executed by `oscore_validate_sender_seq` (the model exposes every shift
+amount through `shl64`), in any state, for any Partial IV; hence none in `recv` either. -/
+theorem no_ub_shift (cfg : Cfg) (r : Recip) (piv : Nat) : validate cfg r piv ≠ .ub := by
+  rw [validate_eq]
+  unfold validateC
+  repeat' split
+  all_goals (intro h; cases h)
+
+theorem no_ub_recv (cfg : Cfg) (r : Recip) (ev : Ev) : (recv cfg r ev).2 ≠ .ub := by
+  rw [recv_snd]
+  rcases vrecv_cases cfg r.view ev with ⟨_, _, _, he⟩ | ⟨_, _, h3⟩
+  · rw [he]; intro h; cases h
+  · exact h3
+
 end Coap.C15
